@@ -46,6 +46,9 @@ type BatchOpts struct {
 	SparseSt  bool // most documents have no stored field at all (not even _id)
 	ForceDV   bool
 	BigValues bool
+	AllFields bool         // every document carries each of the NFields fields once (identical field lists)
+	Dense     bool         // few distinct terms, every field instance has several: long postings lists
+	SkipField func(doc int) string // documents for which the named field is left out
 }
 
 func (g *Gen) term(nv int, dv bool) []byte {
@@ -98,8 +101,17 @@ func (g *Gen) Batch(o BatchOpts) Batch {
 		if o.NDocs > 300 {
 			ninst = r.Intn(2) + 1
 		}
+		if o.AllFields {
+			ninst = o.NFields
+		}
 		for k := 0; k < ninst; k++ {
 			fi := r.Intn(o.NFields)
+			if o.AllFields {
+				fi = k
+			}
+			if o.SkipField != nil && o.SkipField(d) == fieldNames[fi] {
+				continue
+			}
 			c := cfg[fi]
 			f := Field{N: fieldNames[fi], St: c.store && r.Intn(4) != 0, DV: c.dv}
 			if o.SparseSt {
@@ -118,6 +130,9 @@ func (g *Gen) Batch(o BatchOpts) Batch {
 			nterms := r.Intn(5)
 			if r.Intn(10) == 0 {
 				nterms = 0 // stored-only field instance
+			}
+			if o.Dense {
+				nterms = 2 + r.Intn(3)
 			}
 			pos := 0
 			for t := 0; t < nterms; t++ {
@@ -270,8 +285,11 @@ func (g *Gen) IterOps(maxDoc int, n int) []IterOp {
 			ops = append(ops, IterOp{})
 		} else {
 			step := uint64(g.R.Intn(4))
-			if g.R.Intn(6) == 0 {
+			switch g.R.Intn(6) {
+			case 0:
 				step = uint64(g.R.Intn(maxDoc + 2))
+			case 1, 2:
+				step = uint64(3 + g.R.Intn(9)) // across one or two small chunks
 			}
 			cur += step
 			ops = append(ops, IterOp{Adv: true, D: cur})
